@@ -135,7 +135,7 @@ def dyn_c02(info):
 PROPS = {
     "C02": {
         "proofs": ["ZlProofs.Props.C02"],
-        "corr": ["walkers"],
+        "corr": ["walkers", "framework"],  # framework: cert_recovered_iff / unrecovered_panic_iff are theorems about the framework model
         "search": [("sweep", "C02")],
         "obligations": [ob_c02_sites],
         "dyn_search": dyn_c02,
@@ -201,7 +201,7 @@ PROPS = {
     },
     "C11": {
         "proofs": ["ZlProofs.Props.C11", "ZlProofs.Props.C05"],  # locality is a statement about lints that are functions of (object, configuration): C05's footprint facts
-        "corr": ["config", "filter", "regseq", "rsa"],  # filter: a filtered registry is a new registry holding a copy of the configuration (filter_inherits / no_leak); rsa: the one real numeric option (Rounds) under rising and falling sequences on one modulus, against the Fermat model
+        "corr": ["config", "filter", "framework", "regseq", "rsa"],  # filter: a filtered registry is a new registry holding a copy of the configuration (filter_inherits / no_leak); rsa: the one real numeric option (Rounds) under rising and falling sequences on one modulus, against the Fermat model
         "search": [],
         "trusted_base": TB_COMMON,
         "assumptions": ["A-TOML: go-toml's parser and reflection-based Unmarshal as abstracted by the typed-field view (key search name/lower/upper/lower-first, exact kind match, unknown keys ignored)"],
@@ -218,7 +218,7 @@ PROPS = {
     },
     "C07": {
         "proofs": ["ZlProofs.Props.C07", "ZlProofs.Props.C05"],  # rests on C05's footprint facts (no lint writes the object or package-level state)
-        "corr": ["filter"],  # filter_shares_lints: the filtered registry holds the same lint values and the same configuration
+        "corr": ["filter", "framework"],  # filter_shares_lints: the filtered registry holds the same lint values and the same configuration; filtered_is_restriction is about runAll
         "search": ["c07"],
         "trusted_base": TB_COMMON,
         "assumptions": ["rests on C05's footprint facts: no lint writes the object or package-level state"],
